@@ -6,6 +6,7 @@ import Driver.Tls
 import Driver.Client
 import Driver.Ffi
 import Driver.Sport
+import Driver.Sserver
 /-
   Line-protocol driver: one case per input line, one output line `<model> ## <spec>` per case.
 -/
@@ -23,6 +24,7 @@ def runCase (line : String) : String :=
   | some "life" => let (m, s) := runLife tok; s!"{m} ## {s}"
   | some "slife" => let (m, s) := runSlife tok; s!"{m} ## {s}"
   | some "sport" => let (m, s) := runSport tok; s!"{m} ## {s}"
+  | some "sserver" => let (m, s) := runSserver tok; s!"{m} ## {s}"
   | some "net" => let (m, s) := runNet tok; s!"{m} ## {s}"
   | some "tls" => let (m, s) := runTls tok; s!"{m} ## {s}"
   | some "role" => let (m, s) := runRole tok; s!"{m} ## {s}"
